@@ -53,9 +53,22 @@ func c06Coverage() (map[string]string, error) {
 			continue
 		}
 		out := map[string]string{}
+		reX := regexp.MustCompile(`^\s*\("([a-z0-9]+)", "([A-Za-z0-9_]+)"\)`)
+		inExact := false
 		for _, ln := range strings.Split(string(b), "\n") {
 			if m := re.FindStringSubmatch(ln); m != nil {
 				out[m[1]+"."+m[2]] = m[3]
+			}
+			if strings.HasPrefix(ln, "def exactFloat") {
+				inExact = true
+				continue
+			}
+			if inExact {
+				if m := reX.FindStringSubmatch(ln); m != nil {
+					out["exact:"+m[1]+"."+m[2]] = "yes"
+				} else {
+					inExact = false
+				}
 			}
 		}
 		return out, nil
@@ -92,7 +105,17 @@ func c06b2i(b bool) int {
 	return 0
 }
 
-func (c *c06env) bodyCase(ci *c06inst, st *c06state, lane int) {
+func c06NanCanon(isF bool, dw int, v uint64) string {
+	if isF && dw == 32 && (v>>23)&0xff == 0xff && v&0x7fffff != 0 {
+		return "nan"
+	}
+	if isF && dw == 64 && (v>>52)&0x7ff == 0x7ff && v&0xfffffffffffff != 0 {
+		return "nan"
+	}
+	return fmt.Sprintf("%x", v)
+}
+
+func (c *c06env) bodyCase(ci *c06inst, st *c06state, lane int, isF bool) {
 	r := c.r
 	inst := ci.inst
 	s2 := *st
@@ -140,7 +163,67 @@ func (c *c06env) bodyCase(ci *c06inst, st *c06state, lane int) {
 	d := "-"
 	if dw != 0 {
 		v, _ := c06OperandVal(c, inst.Dst, lane) // the wavefront still holds the post-state
-		d = fmt.Sprintf("%x", v)
+		d = c06NanCanon(isF, dw, v)
+	}
+	r.Case(line, fmt.Sprintf("d=%s vcc=%x sd=%x", d, res.vcc, binary.LittleEndian.Uint64(res.s[c06MaskO*4:])))
+}
+
+// goRunCase: one whole instruction under an arbitrary EXEC against the Lean `goRun` of the translated handler
+func (c *c06env) goRunCase(ci *c06inst, st *c06state, exec uint64) {
+	r := c.r
+	inst := ci.inst
+	s2 := *st
+	s2.exec = exec
+	c.load(&s2)
+	var cols [4][]string
+	ops := []*insts.Operand{inst.Src0, inst.Src1, inst.Src2, nil}
+	dw := 0
+	if inst.Dst != nil && inst.Dst.OperandType == insts.RegOperand && inst.Dst.Register != nil && inst.Dst.Register.IsVReg() {
+		n := inst.Dst.RegCount
+		if n < 1 {
+			n = 1
+		}
+		if n > 2 {
+			r.Count("gorun-skip:wide-destination")
+			return
+		}
+		dw = 32 * n
+		ops[3] = inst.Dst
+	}
+	for k, op := range ops {
+		for lane := 0; lane < 64; lane++ {
+			v, f := c06OperandVal(c, op, lane)
+			if f != "" {
+				r.Count("gorun-skip:operand-unreadable")
+				return
+			}
+			cols[k] = append(cols[k], fmt.Sprintf("%x", v))
+		}
+	}
+	s2k := "v"
+	if inst.Src2 != nil && !(inst.Src2.OperandType == insts.RegOperand && inst.Src2.Register != nil && inst.Src2.Register.IsVReg()) {
+		s2k = "u"
+	}
+	sd := binary.LittleEndian.Uint64(s2.s[c06MaskO*4:])
+	line := fmt.Sprintf("c06 gorun %s %s exec=%x vcc=%x sd=%x dw=%x mos=%s mod=%s s2k=%s sdwa=%d clamp=%d abs=%x neg=%x omod=%x s0sel=%x s1sel=%x dsel=%x dun=%x s0=%s s1=%s s2=%s d=%s",
+		ci.arch, ci.handler, exec, s2.vcc, sd, dw, c06MaskTarget(inst.SDst), c06MaskTarget(inst.Dst), s2k,
+		c06b2i(inst.IsSdwa), c06b2i(inst.Clamp), uint64(inst.Abs), uint64(inst.Neg), uint64(inst.Omod),
+		uint32(inst.Src0Sel), uint32(inst.Src1Sel), uint32(inst.DstSel), uint8(inst.DstUnused),
+		strings.Join(cols[0], ","), strings.Join(cols[1], ","), strings.Join(cols[2], ","), strings.Join(cols[3], ","))
+	res := c.runOn(ci, &s2, 1)
+	r.Count("gorun:" + ci.arch + "/" + ci.format)
+	if res.fault != "" {
+		r.Case(line, "fault")
+		return
+	}
+	d := "-"
+	if dw != 0 {
+		var ds []string
+		for lane := 0; lane < 64; lane++ {
+			v, _ := c06OperandVal(c, inst.Dst, lane) // the wavefront still holds the post-state
+			ds = append(ds, fmt.Sprintf("%x", v))
+		}
+		d = strings.Join(ds, ",")
 	}
 	r.Case(line, fmt.Sprintf("d=%s vcc=%x sd=%x", d, res.vcc, binary.LittleEndian.Uint64(res.s[c06MaskO*4:])))
 }
@@ -187,7 +270,8 @@ func runC06Deep(r *Run, rng *Rng, replay string) {
 				seen[op] = true
 				handler := hand[fmt.Sprintf("%s/%s/%d", arch, format, op)]
 				kind := cov[arch+"."+handler]
-				if handler == "" || (kind != "translated" && kind != "wrapper") {
+				isF := kind == "translatedF" && cov["exact:"+arch+"."+handler] == "yes"
+				if handler == "" || (kind != "translated" && kind != "wrapper" && !isF) {
 					continue
 				}
 				vs := c.variants(arch, format, it)
@@ -220,10 +304,21 @@ func runC06Deep(r *Run, rng *Rng, replay string) {
 							case 2:
 								lane = 31 + rng.Intn(2)
 							}
-							c.bodyCase(ci, st, lane)
+							c.bodyCase(ci, st, lane, isF)
 						}
 					}
 					covered[arch+"."+handler] = true
+					// whole-instruction runs against `goRun`: first and one random other variant of each opcode
+					if !isF && (vi == 0 || (vi == 1+rng.Intn(len(vs)) && len(vs) > 1) || r.Tier == "thorough") {
+						st := c.newState(ci, false)
+						masks := []uint64{rng.U64(), rng.U64() & rng.U64() & rng.U64()}
+						if r.Tier == "thorough" {
+							masks = append(masks, ^uint64(0), 0, rng.U64()|rng.U64())
+						}
+						for _, m := range masks {
+							c.goRunCase(ci, st, m)
+						}
+					}
 				}
 			}
 		}
